@@ -240,13 +240,18 @@ def _extreme(I, args, kwargs, is_max):
         if key is None:
             return I.int_term(x)
         I.pure += 1
+        if idx is i:
+            I.qctx.append(([i], smt.And(smt.Le(smt.IntC(0), i), smt.Lt(i, n))))
         try:
             return I.int_term(I.call(key, [x], {}))
         except NeedFork:
             raise Unsupported('max/min key needs a decision')
         finally:
             I.pure -= 1
-    ki, kk = keyterm(i), keyterm(k)
+            if idx is i:
+                I.qctx.pop()
+    ki = keyterm(i)
+    kk = smt.subst(ki, {i.key(): k})
     rng = smt.And(smt.Le(smt.IntC(0), i), smt.Lt(i, n))
     le = smt.Le if is_max else smt.Ge
     lt = smt.Lt if is_max else smt.Gt
